@@ -40,6 +40,9 @@ class Writer:
     def get_extra_info(self, *a, **k):
         return None
 
+    def __canon__(self):
+        return (tuple(self.writes), self.closed)
+
 
 class StubServer:
     def __init__(self):
@@ -47,6 +50,9 @@ class StubServer:
 
     def is_serving(self):
         return self.serving
+
+    def __canon__(self):
+        return (self.serving,)
 
 
 class Session:
